@@ -206,3 +206,84 @@ def find_role(ctx, desc, pred, module=None, called_from=None):
     ctx.require(len(cands) == 1, '%s (found %d: %s)' % (desc, len(cands), [c.path for c in cands][:4]))
     ctx.fn(cands[0])
     return cands[0]
+
+
+def subsequence_filter(prog, b, source_param, pred_ok):
+    """Recognise `keep the elements of <parameter source_param> for which P holds, in order` in body b, written either as
+    a loop with a guarded push or as iter().filter(closure)[.cloned()].collect().
+    pred_ok(body_of_pred, pred_term, elem_term) -> polarity (True: kept when P true, False: kept when P false) or None.
+    Returns (ok, description)."""
+    from . import opw
+    # forbidden operations anywhere in the body
+    for ci, ct in b.calls():
+        n = mir.cname(callee_name(ct))
+        m = n.split('::')[-1]
+        owner = n.split('::')[0]
+        if (m in opw.VEC_REMOVERS or m in opw.VEC_REORDER) and owner in ('Vec', 'slice') or m.startswith('par_') or \
+                (m in (opw.ITER_DROPPERS - {'filter'}) and owner in ('Iterator', 'ParallelIterator')):
+            return False, 'order-changing / element-dropping operation `%s` at %s' % (n, b.where(ci))
+    pushes = [(bi, t) for bi, t in b.calls() if mir.cname(callee_name(t)) == 'Vec::push']
+    filters = [(bi, t) for bi, t in b.calls() if mir.cname(callee_name(t)) == 'Iterator::filter']
+    if len(pushes) == 1 and not filters:
+        bi, t = pushes[0]
+        elem = strip(b.op_term(t['args'][1], (bi, None)))
+        e0 = elem
+        while isinstance(e0, tuple) and e0[0] == 'call' and mir.cname(e0[1]) == 'Clone::clone':
+            e0 = strip(e0[2])
+        src = loop_source(e0)
+        if src is None:
+            return False, 'pushed value is not the loop element: ' + mir.show(elem, maxdepth=4)
+        base, ad = iter_chain(src)
+        if not is_param(base, source_param) or any(a not in ('into_iter', 'iter', 'cloned', 'copied') for a in ad):
+            return False, 'does not iterate its input sequentially (source %s, adaptors %s)' % (mir.show(base, maxdepth=3), ad)
+        found = None
+        for g, key, sw in b.guard_terms(bi):
+            g = strip(g)
+            if isinstance(g, tuple) and g[0] == 'call':
+                pol = pred_ok(b, g, e0)
+                if pol is not None:
+                    found = (opw.truth(key) is pol)
+        if found is not True:
+            return False, 'push is not on the keeping edge of the predicate for the pushed element'
+        dest_vec = strip(b.op_term(t['args'][0], (bi, None)))
+        rv = [strip(x[0]) for x in b.return_values()]
+        if not all(r == dest_vec for r in rv):
+            return False, 'returned value is not the vector receiving the pushes'
+        return True, 'loop with guarded push'
+    if len(filters) == 1 and not pushes:
+        bi, t = filters[0]
+        base, ad = iter_chain(b.op_term(t['args'][0], (bi, None)))
+        if not is_param(base, source_param) or any(a not in ('into_iter', 'iter') for a in ad):
+            return False, 'filter does not run over the whole input in order (source %s, adaptors %s)' % (mir.show(base, maxdepth=3), ad)
+        cb, caps = closure_of_term(prog, b.op_term(t['args'][1], (bi, None)))
+        if cb is None:
+            return False, 'filter predicate is not a closure'
+        rv = [strip(x[0]) for x in cb.return_values()]
+        if len(rv) != 1:
+            return False, 'filter closure has several return values'
+        r = rv[0]
+        neg = False
+        while isinstance(r, tuple) and r[0] == 'un' and r[1] == 'Not':
+            neg = not neg
+            r = strip(r[2])
+        if not (isinstance(r, tuple) and r[0] == 'call'):
+            return False, 'filter closure does not return the predicate'
+        pol = pred_ok(cb, r, ('param', 2, cb.name_of(2)))
+        if pol is None:
+            return False, 'filter closure does not apply the expected predicate to its element: ' + mir.show(r, maxdepth=4)
+        if (not neg) != pol:
+            return False, 'filter keeps the elements on the wrong edge of the predicate'
+        # returned value = collect of (cloned/copied of) the filter
+        rvs = [strip(x[0]) for x in b.return_values()]
+        okr = len(rvs) == 1
+        if okr:
+            x = rvs[0]
+            names = []
+            while isinstance(x, tuple) and x[0] == 'call':
+                names.append(mir.cname(x[1]).split('::')[-1])
+                x = strip(x[2])
+            okr = names and names[0] == 'collect' and all(n in ('collect', 'cloned', 'copied', 'filter', 'into_iter', 'iter') for n in names) and 'filter' in names
+        if not okr:
+            return False, 'result is not collect() of the filtered sequence'
+        return True, 'iterator filter + collect'
+    return False, 'neither a single guarded push nor a single iterator filter (pushes=%d, filters=%d)' % (len(pushes), len(filters))
